@@ -10,7 +10,9 @@ terminated (mode "term"), truncated (mode "trunc") or one of the two by parity o
 Agent a with leave[a] = k is terminated at step k of every episode and is absent from then on.
 reset(seed=s) sets base = s (observable in feature 1), reset() keeps it.
 With unaligned=True the truncation dict lists the agents in the reverse order of the other dicts (dicts are
-maps: a consumer must pair them by key).
+maps: a consumer must pair them by key). With reversed_out=True every dict returned by reset/step lists the agents in
+reverse order (consistently); everything a consumer obtains by key is unchanged, so the Gallina family needs no twin of
+this flag (used for vector-environment runs only, whose observables are all keyed by agent).
 """
 from __future__ import annotations
 
@@ -141,7 +143,7 @@ class ScriptedEnv(ParallelEnv):
     render_mode = None
 
     def __init__(self, eid=0, nagents=2, lens=(3,), mode="term", leave=None, kind="vector", akind="discrete",
-                 unaligned=False):
+                 unaligned=False, reversed_out=False):
         self.eid = int(eid)
         self.nagents = int(nagents)
         self.lens = [int(x) for x in lens]
@@ -150,6 +152,7 @@ class ScriptedEnv(ParallelEnv):
         self.kind = kind
         self.akind = akind
         self.unaligned = bool(unaligned)
+        self.reversed_out = bool(reversed_out)   # every returned dict lists the agents in reverse order
         self.possible_agents = [f"agent_{i}" for i in range(self.nagents)]
         self.agents = []
         self.base = 0
@@ -185,6 +188,8 @@ class ScriptedEnv(ParallelEnv):
         self.agents = self.possible_agents[:]
         obs = {ag: self._obs(self._idx(ag), 0) for ag in self.agents}
         info = {ag: self._info(self._idx(ag), True) for ag in self.agents}
+        if self.reversed_out:
+            obs, info = (dict(reversed(list(d.items()))) for d in (obs, info))
         return obs, info
 
     def step(self, actions):
@@ -210,6 +215,8 @@ class ScriptedEnv(ParallelEnv):
         self.agents = [ag for ag in self.agents if not (term[ag] or trunc[ag])]
         if self.unaligned:
             trunc = dict(reversed(list(trunc.items())))
+        if self.reversed_out:
+            obs, rew, term, trunc, info = (dict(reversed(list(d.items()))) for d in (obs, rew, term, trunc, info))
         return obs, rew, term, trunc, info
 
     def get_counters(self):
